@@ -2,6 +2,7 @@
 """Regenerates the `fixed` list of known_findings.json from /repo's "fix:" commits."""
 import json, subprocess
 PROP = {
+"a validator reaching its fields through a private":"C10",
 "schema(examples=[]) made OpenAPI 3.0":"C18",
 "fields_set of an instance created through a parametrised":"C15",
 "generic NamedTuple and TypedDict classes ignored":"C01",
